@@ -174,12 +174,13 @@ theorem StackExt.flag {a b : List StackEntry} (h : StackExt a b) {d : Nat} (hf :
 
 theorem Step.refl (s : St) (lb : Min) : Step c inst s s lb :=
   ⟨⟨[], by simp, fun n hn => by cases hn⟩, StackExt.refl _, fun _ _ h => h, fun _ _ h => h,
-   fun k hu hd => absurd hd (hu _)⟩
+   fun k hu hd => absurd hd (hu _), rfl⟩
 
 theorem Step.weaken {s s' : St} {lb lb' : Min} (h : Step c inst s s' lb) (hle : MinLe lb' lb) :
     Step c inst s s' lb' := by
   obtain ⟨new, hg, hn⟩ := h.graph
-  exact ⟨⟨new, hg, fun n hm => ⟨(hn n hm).1, hle.trans (hn n hm).2⟩⟩, h.stack, h.cacheExt, h.ext, h.low⟩
+  exact ⟨⟨new, hg, fun n hm => ⟨(hn n hm).1, hle.trans (hn n hm).2⟩⟩, h.stack, h.cacheExt, h.ext, h.low,
+    h.cacheMode⟩
 
 theorem Step.inG {s s' : St} {lb : Min} (h : Step c inst s s' lb) (hi' : Inv c inst dom s') {k : Nat}
     (hk : InG c inst s k) : InG c inst s' k :=
@@ -190,7 +191,8 @@ theorem Step.trans {s s' s'' : St} {m1 m2 : Min} (h1 : Step c inst s s' m1) (h2 
   obtain ⟨new1, hg1, hn1⟩ := h1.graph
   obtain ⟨new2, hg2, hn2⟩ := h2.graph
   refine ⟨⟨new1 ++ new2, by rw [hg2, hg1, List.append_assoc], ?_⟩, h1.stack.trans h2.stack,
-    fun k v h => h2.cacheExt k v (h1.cacheExt k v h), fun k v h => h2.ext k v (h1.ext k v h), ?_⟩
+    fun k v h => h2.cacheExt k v (h1.cacheExt k v h), fun k v h => h2.ext k v (h1.ext k v h), ?_,
+    h2.cacheMode.trans h1.cacheMode⟩
   · intro n hn
     cases List.mem_append.mp hn with
     | inl h => exact ⟨(hn1 n h).1, hle.trans (hn1 n h).2⟩
